@@ -296,6 +296,30 @@ def field_mutants(data, rng, sec_type=11):
         emit('covered: every result removed and the first target altered', lambda w: drop_and_alter(w, 'all'))
     emit('protected header', lambda w: edit_asb(w, lambda a: flip_in_result(a, 0)))
     emit('tag / signature', lambda w: edit_asb(w, lambda a: flip_in_result(a, 3)))
+
+    def attach_attack(w):
+        # no key needed: the target's data is replaced and the original octets are put into the (detached, nil) payload slot of the
+        # COSE message, which no AAD covers; a verifier that trusts an attached payload still finds the tag right
+        orig = target(w)['data']
+
+        def move(asb):
+            (rid, rval) = asb['results'][0][0]
+            msg = cw.parse_all(rval).to_python()
+            if msg[2] is not None:
+                raise ValueError('payload already attached')
+            msg[2] = orig
+            asb['results'][0][0] = (rid, cw.enc(msg))
+        edit_asb(w, move)
+        target(w).update(data=(bytes([orig[0] ^ 1]) + orig[1:]) if orig else b'\x00')
+    if tnums and tnums[0] == 1:
+        emit('covered: target data altered and the original data moved into the payload slot of the COSE message', attach_attack)
+
+    def add_empty_map_param(asb):
+        if any(pid == 3 for (pid, _val) in asb['params']):
+            raise ValueError('already has additional protected parameters')
+        asb['params'] = list(asb['params']) + [(3, b'\xa0')]
+    # (an added zero-length string would leave the AAD as it was; the encoded empty map h'a0' is another AAD)
+    emit('covered: additional protected parameter added in transit (the encoded empty map)', lambda w: edit_asb(w, add_empty_map_param))
     emit('security block flags (not in default scope)', lambda w: bib(w).update(flags=bib(w)['flags'] ^ 1))
     for blk in dec['blocks']:
         if blk['type'] not in (1, sec_type) and blk['num'] not in tnums:
